@@ -7,7 +7,9 @@ case kinds
       -> {"elts": [[class, name, [nodes], [args|null], [kwpos|null, kw], opts, string]...],
           "str": str(c), "printed": [str(cpt) ...]}
        | {"error": kind, "at": index of the offending line, "etype":..., "msg":...}
-  {"roundtrip": [l1, ...]}        x -> c0 ; s1 = str(c0) ; c1 = parse(s1) ; s2 = str(c1) ; c2 = parse(s2); s3
+  {"file": path}                  Circuit(path)  (netfile_add; the file may .include others)  -> as for "lines"
+  {"roundtrip": [l1, ...]} | {"roundtrip_file": path}
+                                  x -> c0 ; s1 = str(c0) ; c1 = parse(s1) ; s2 = str(c1) ; c2 = parse(s2); s3
       -> {"c0":..,"s1":..,"c1":..,"s2":..,"c2":..,"s3":..} with "errorN" when stage N raises
   {"derive": {"lines": [...], "op": name}} | {"derive": {"network": expr, "op": "netlist"}}
                                   the text Lcapy itself produces by a rewrite (c.s_model(), c.kill(), c.subs(..), ...)
@@ -107,6 +109,13 @@ def build(lines):
     return c, None
 
 
+def build_file(path):
+    try:
+        return Circuit(path), None
+    except Exception as e:
+        return None, {'error': classify(e), 'at': 0, 'etype': type(e).__name__, 'msg': str(e)[:200]}
+
+
 def snapshot(c, with_sem=False):
     return [elt(e, with_sem) for e in c.elements.values()]
 
@@ -117,11 +126,19 @@ def run(case):
         if err:
             return err
         return {'elts': snapshot(c), 'str': str(c), 'printed': [str(e) for e in c.elements.values()]}
-    if 'roundtrip' in case:
+    if 'file' in case:
+        c, err = build_file(case['file'])
+        if err:
+            return err
+        return {'elts': snapshot(c), 'str': str(c), 'printed': [str(e) for e in c.elements.values()]}
+    if 'roundtrip' in case or 'roundtrip_file' in case:
         out = {}
-        lines = case['roundtrip']
+        lines = case.get('roundtrip')
         for stage in range(3):
-            c, err = build(lines)
+            if stage == 0 and 'roundtrip_file' in case:
+                c, err = build_file(case['roundtrip_file'])
+            else:
+                c, err = build(lines)
             if err:
                 out['error%d' % stage] = err
                 return out
